@@ -109,8 +109,8 @@ impl Sm9EncMasterKey {
     pub fn encrypt(&self, idb: &[u8], data: &[u8]) -> Vec<u8> {
         // A1: Q = H1(ID||hid,N) * P1 + Ppube
         let t = sm9_u256_hash1(idb, SM9_HID_ENC);
-        let mut c1 = SM9_POINT_MONT_P1.point_mul(&t);
-        c1 = c1.point_add(&self.ppube);
+        let q = SM9_POINT_MONT_P1.point_mul(&t).point_add(&self.ppube);
+        let mut c1;
 
         let mut k = vec![];
         loop {
@@ -118,7 +118,7 @@ impl Sm9EncMasterKey {
             let r = sm9_random_u256(&SM9_N_MINUS_ONE);
 
             // A3: C1 = r * Q
-            c1 = c1.point_mul(&r);
+            c1 = q.point_mul(&r);
             let cbuf = c1.to_bytes_be();
             let cbuf = cbuf.as_slice();
 
@@ -130,7 +130,7 @@ impl Sm9EncMasterKey {
             let gbuf = g.to_bytes_be();
             let gbuf = gbuf.as_slice();
 
-            // A6: K = KDF(C || w || ID_B, klen), if K == 0, goto A2
+            // A6: K = KDF(C || w || ID_B, klen), if K1 == 0, goto A2
             let mut k_append: Vec<u8> = vec![];
             // k_append.push(0x04);
             k_append.extend_from_slice(&cbuf[1..cbuf.len()]);
@@ -141,7 +141,8 @@ impl Sm9EncMasterKey {
                 x.iter().all(|&byte| byte == 0)
             }
 
-            if !is_zero(&k) {
+            // K1 is the part of K that masks the message: if it is all zero, C2 would be the plaintext itself
+            if data.is_empty() || !is_zero(&k[0..data.len()].to_vec()) {
                 break;
             }
         }
